@@ -199,7 +199,7 @@ func H_C01_Float64() {
 // index; no unrolling (read-over-copy memory expressions, skolemised equality).
 func c01MaxLen() int {
 	if verifTier() == 1 {
-		return math.MaxInt32 - 16
+		return 1<<28 + 64 // every length-prefix size up to 5 bytes; the native replays stay within memory
 	}
 	return 1 << 20
 }
